@@ -21,7 +21,8 @@ META = {
             "operator points]: the output side interpolates the operator's basis at the new points, the input side interpolates "
             "the *new* grid's basis at the operator's points (swapped construction), for the three forms, and the "
             "interpolator is built with the given degree in x-space mode.  The 'nothing to do' shortcuts return an equal copy."
-            " The dispatcher of a reshape is built on the grid object (bare points become a logarithmic grid).",
+            " The dispatcher of a reshape is built on the grid object (bare points become a logarithmic grid)."
+            " Three reshapes in one evaluator between grids with the same points (logarithmic, linear, logarithmic) each use the interpolation of their own grids; memoising decorators and the grid's own __hash__/__eq__ are modelled by the evaluator.",
     "note": "That interpolation reproduces functions representable on the grids is C34; the tolerance used to call two grids equal "
             "is decided there. Here the contraction structure is decided for all operator values.",
     "technique": "partial evaluation with symbolic tensors and provenance-named interpolation matrices + polynomial identity testing over F_p",
@@ -212,6 +213,52 @@ def run(chk):
         chk.fail("nothing-to-do-returns-a-copy", fxg.qname, "no grid given: expected ValueError", where=fxg.where, instance="grid refusal")
     except PERaise as e:
         chk.decide("ValueError" in str(e), "nothing-to-do-returns-a-copy", fxg.qname, f"no grid given raises {e}", where=fxg.where, instance="grid refusal")
+    # two reshapes in ONE process between grids with the same points, first logarithmic then linear: the second is built from the
+    # interpolation of ITS grids (memoising decorators and the grid's own __hash__ / __eq__ are modelled by the evaluator)
+    from fractions import Fraction
+
+    pe = PE(src)
+    pts_op, pts_new = [Fraction(1, 10), Fraction(1, 2), Fraction(1)][:NX] if NX <= 3 else None, None
+    pts_op = [Fraction(i + 1, NX) for i in range(NX)]
+    pts_new = [Fraction(2 * i + 1, 2 * NX) for i in range(NX)]
+
+    def real_grid(points, log):
+        g = Obj(xg_cls)
+        raw = Arr.from_nested(list(points))
+        g.attrs.update(raw=raw, _raw=raw, grid=raw, log=log, size=len(points), tag=("log" if log else "lin"))
+        return g
+
+    def mk_disp3(p, a, k):
+        d = Obj(disp_cls)
+        a = list(a)
+        xg = a[0] if a else k.get("xgrid")
+        d.attrs.update(basis=xg.attrs["tag"] if isinstance(xg, Obj) else "default-log-grid", polynomial_degree=a[1] if len(a) > 1 else k.get("polynomial_degree"),
+                       log=xg.attrs.get("log") if isinstance(xg, Obj) else True, xgrid=xg)
+        return d
+
+    pe.overrides[disp_cls.qname] = mk_disp3
+    pe.overrides[f"{disp_cls.qname}.get_interpolation"] = lambda p, a, k: Arr.from_nested(
+        [[dag.sym(f"R{a[0].attrs['basis']}_{i}{j}") for j in range(NX)] for i in range(NX)])
+    pe.ext["warnings.warn"] = lambda p, a, k: None
+    stale = None
+    for log in (True, False, True):
+        elem = mk_operator(pe, True, name="S")
+        tagw = "log" if log else "lin"
+        try:
+            res = pe.call(fxg.qname, [elem, real_grid(pts_op, log), 2], {"targetgrid": real_grid(pts_new, log), "inputgrid": None})
+            used = {s_ for s_ in dag.symbols(dag.tonode(pe.getattr(res, "operator")[0, 0, 0, 0])) if s_.startswith("R")}
+            ok = bool(used) and all(s_.startswith("R" + tagw) for s_ in used)
+            got = sorted(used)[:3]
+        except (PERaise, ValueError) as e:
+            ok, got = False, f"raises {e}"
+        if not ok and stale is None:
+            stale = (tagw, got)
+    chk.decide(stale is None, "grid-reshape-is-Mout.O.Min", fxg.qname,
+               f"three reshapes in one process between grids with the same points - logarithmic, linear, logarithmic: the "
+               f"{'logarithmic' if stale and stale[0] == 'log' else 'linear'} one is built from {stale[1] if stale else ''}; required the interpolation matrix of "
+               f"the grids of THAT call (their log / linear flag included) - a matrix kept from an earlier call is handed out", where=fxg.where,
+               instance="reshapes in sequence", how="PE of consecutive reshapes in one evaluator")
+
     chk.floor("tensor identities", n_cases, 18)
     chk.note(cases=n_cases, files=["src/eko/io/manipulate.py"])
     chk.explanation = "Contraction structure of both reshapes decided for all operator values by PE and identity testing."
